@@ -908,6 +908,625 @@ theorem remove_depth (fixed : Bool) (U c1 p1 ref p2 c2 W : Str)
               exact h
     · rw [if_neg hle] at h; simp at h
 
+/-! ### file order, reference detection -/
+
+theorem perm_insertCol (c : Col) : ∀ l : List Col, (insertCol c l).Perm (c :: l)
+  | [] => by simp [insertCol]
+  | d :: ds => by
+    unfold insertCol
+    split
+    · exact List.Perm.refl _
+    · exact ((List.perm_cons d).mpr (perm_insertCol c ds)).trans (List.Perm.swap c d ds)
+
+theorem perm_sortCols : ∀ l : List Col, (sortCols l).Perm l
+  | [] => by simp [sortCols]
+  | c :: cs => (perm_insertCol c _).trans ((List.perm_cons c).mpr (perm_sortCols cs))
+
+theorem mem_fileCols (sc : Sidecar) (header : List Str) (c : Col) :
+    c ∈ fileCols sc header ↔ c.name ∈ header ∧ trOf sc c.name = some c.tr := by
+  unfold fileCols
+  rw [List.mem_filterMap]
+  constructor
+  · rintro ⟨n, hn, h⟩
+    cases ht : trOf sc n with
+    | none => simp [ht] at h
+    | some t => simp [ht] at h; subst h; exact ⟨hn, ht⟩
+  · rintro ⟨hn, ht⟩
+    exact ⟨c.name, hn, by simp [ht]⟩
+
+theorem activeCols_perm (sc : Sidecar) (h h' : List Str) (hp : h'.Perm h) :
+    activeCols sc h' = activeCols sc h := by
+  unfold activeCols
+  refine List.Perm.eq_of_pairwise (le := NameLe) ?_ (sortCols_sorted _) (sortCols_sorted _)
+    ((perm_sortCols _).trans ((hp.filterMap _).trans (perm_sortCols _).symm))
+  intro a b ha hb hab hba
+  have hn : a.name = b.name := List.le_antisymm hab hba
+  have h1 := ((mem_fileCols sc h' a).mp ((mem_sortCols a _).mp ha)).2
+  have h2 := ((mem_fileCols sc h b).mp ((mem_sortCols b _).mp hb)).2
+  rw [hn, h2] at h1
+  cases a; cases b
+  simp only [Col.mk.injEq]
+  exact ⟨hn, (Option.some.inj h1).symm⟩
+
+theorem findRefs_mono (c : Char) (cs : Str) : ∀ x ∈ findRefs cs, x ∈ findRefs (c :: cs) := by
+  intro x hx
+  rw [findRefs]
+  split
+  · exact List.mem_cons_of_mem _ hx
+  · exact hx
+
+theorem isRefChar_close : isRefChar '}' = false := by decide
+
+/-! ### items: accepted, balanced, not blank -/
+
+/-- a text that can be an item of a row: accepted by the delimiter checker, balanced, not blank -/
+def GoodItem (s : Str) : Prop := delimOk s = true ∧ balanced s ∧ firstNonWs s ≠ none
+
+instance (s : Str) : Decidable (GoodItem s) := by unfold GoodItem; infer_instance
+
+theorem isSpace_noparen (c : Char) (h : isSpace c = true) : c ≠ '(' ∧ c ≠ ')' := by
+  constructor <;> (intro e; subst e; revert h; decide)
+
+theorem lastNonWs_none_ws : ∀ s : Str, lastNonWs s = none → ∀ c ∈ s, clsOf c = .ws
+  | [], _ => by simp
+  | d :: ds, h => by
+    rw [lastNonWs] at h
+    cases hl : lastNonWs ds with
+    | some x => simp [hl] at h
+    | none =>
+      simp only [hl] at h
+      have hd : isSpace d = true := by
+        cases hh : isSpace d
+        · simp [hh] at h
+        · rfl
+      intro c hc
+      rcases List.mem_cons.mp hc with e | e
+      · subst e; exact (clsOf_ws_iff _).mpr hd
+      · exact lastNonWs_none_ws ds hl c e
+
+theorem firstNonWs_none_ws : ∀ s : Str, firstNonWs s = none → ∀ c ∈ s, clsOf c = .ws
+  | [], _ => by simp
+  | d :: ds, h => by
+    rw [firstNonWs] at h
+    by_cases hd : isSpace d = true
+    · rw [if_pos hd] at h
+      intro c hc
+      rcases List.mem_cons.mp hc with e | e
+      · subst e; exact (clsOf_ws_iff _).mpr hd
+      · exact firstNonWs_none_ws ds h c e
+    · rw [if_neg hd] at h; cases h
+
+theorem ws_lastNonWs_none : ∀ s : Str, (∀ c ∈ s, clsOf c = .ws) → lastNonWs s = none
+  | [], _ => rfl
+  | d :: ds, h => by
+    rw [lastNonWs, ws_lastNonWs_none ds (fun c hc => h c (by simp [hc]))]
+    simp [(clsOf_ws_iff d).mp (h d (by simp))]
+
+theorem ws_firstNonWs_none : ∀ s : Str, (∀ c ∈ s, clsOf c = .ws) → firstNonWs s = none
+  | [], _ => rfl
+  | d :: ds, h => by
+    rw [firstNonWs, if_pos ((clsOf_ws_iff d).mp (h d (by simp)))]
+    exact ws_firstNonWs_none ds (fun c hc => h c (by simp [hc]))
+
+theorem lastNonWs_ne_none (s : Str) (h : firstNonWs s ≠ none) : lastNonWs s ≠ none :=
+  fun e => h (ws_firstNonWs_none s (lastNonWs_none_ws s e))
+
+theorem depth_ws (s : Str) (d : Nat) (h : ∀ c ∈ s, clsOf c = .ws) : depth d s = some d :=
+  depth_noparen s d (fun c hc => isSpace_noparen c ((clsOf_ws_iff c).mp (h c hc)))
+
+/-- the first non-blank character of an accepted, balanced text opens a group or a tag -/
+theorem first_class : ∀ (s : Str) (c : Char), firstNonWs s = some c →
+    run none s ≠ none → depth 0 s ≠ none → clsOf c = .opn ∨ clsOf c = .other
+  | [], _, h, _, _ => by simp [firstNonWs] at h
+  | d :: ds, c, h, hr, hd => by
+    rw [firstNonWs] at h
+    by_cases hs : isSpace d = true
+    · rw [if_pos hs] at h
+      have hw := (clsOf_ws_iff d).mpr hs
+      rw [run, if_pos hw] at hr
+      have hp := isSpace_noparen d hs
+      rw [depth, if_neg hp.1, if_neg hp.2] at hd
+      exact first_class ds c h hr hd
+    · rw [if_neg hs] at h
+      have : d = c := Option.some.inj h
+      subst this
+      have hw : clsOf d ≠ .ws := fun e => hs ((clsOf_ws_iff d).mp e)
+      rw [run, if_neg hw] at hr
+      by_cases ho : ok none (clsOf d) = true
+      · have hcl : d ≠ ')' := by
+          intro e; subst e
+          rw [depth, if_neg (by decide), if_pos rfl, if_pos rfl] at hd
+          exact hd rfl
+        have hcl' : clsOf d ≠ .cls := by
+          intro e
+          apply hcl
+          revert e hw
+          unfold clsOf
+          by_cases h1 : isSpace d = true <;> by_cases h2 : (d == ',') = true <;>
+            by_cases h3 : (d == '(') = true <;> by_cases h4 : (d == ')') = true <;> simp_all
+        generalize clsOf d = x at *
+        cases x <;> simp_all [ok]
+      · rw [if_neg ho] at hr; exact absurd rfl hr
+
+/-- a balanced text does not end (blanks aside) with an opening parenthesis -/
+theorem depth_last_opn : ∀ (s : Str) (d e : Nat), depth d s = some e → lastNonWs s = some '(' → 1 ≤ e
+  | [], _, _, _, h => by simp [lastNonWs] at h
+  | c :: cs, d, e, hd, hl => by
+    rw [lastNonWs] at hl
+    cases hc : lastNonWs cs with
+    | some x =>
+      simp only [hc] at hl
+      rw [depth] at hd
+      split at hd
+      · exact depth_last_opn cs _ e hd (by rw [hc, hl])
+      · split at hd
+        · split at hd
+          · cases hd
+          · exact depth_last_opn cs _ e hd (by rw [hc, hl])
+        · exact depth_last_opn cs _ e hd (by rw [hc, hl])
+    | none =>
+      simp only [hc] at hl
+      have hcc : c = '(' := by
+        by_cases hs : isSpace c = true
+        · simp [hs] at hl
+        · simpa [hs] using hl
+      subst hcc
+      rw [depth, if_pos rfl, depth_ws cs _ (lastNonWs_none_ws cs hc)] at hd
+      have := Option.some.inj hd
+      omega
+
+theorem good_itemOk (s : Str) (h : GoodItem s) : itemOk s := by
+  obtain ⟨hd, hb, hn⟩ := h
+  rw [delimOk_eq_chain] at hd
+  unfold chain at hd
+  cases hr : run none s with
+  | none => simp [hr] at hd
+  | some q =>
+    simp only [hr] at hd
+    cases hf : firstNonWs s with
+    | none => exact absurd hf hn
+    | some c =>
+      refine ⟨⟨c, hf, first_class s c hf (by simp [hr]) (by unfold balanced at hb; simp [hb])⟩, ?_⟩
+      have hq := run_lastNonWs s none q hr
+      cases hl : lastNonWs s with
+      | none => exact absurd hl (lastNonWs_ne_none s (by simp [hf]))
+      | some x =>
+        simp only [hl] at hq
+        subst hq
+        have hx : x ≠ '(' := by
+          intro e; subst e
+          have := depth_last_opn s 0 0 hb hl
+          omega
+        have hws : clsOf x ≠ .ws := by
+          intro e
+          -- the last non-blank character is not blank
+          have : ∀ (t : Str) (y : Char), lastNonWs t = some y → isSpace y = false := by
+            intro t
+            induction t with
+            | nil => intro y h; simp [lastNonWs] at h
+            | cons a as ih =>
+              intro y h
+              rw [lastNonWs] at h
+              cases ha : lastNonWs as with
+              | some z => simp only [ha] at h; exact ih y (by rw [ha, h])
+              | none =>
+                simp only [ha] at h
+                by_cases hs : isSpace a = true
+                · simp [hs] at h
+                · simp only [hs] at h
+                  have : a = y := by simpa using h
+                  subst this; simpa using hs
+          have h2 := this s x hl
+          rw [(clsOf_ws_iff x).mp e] at h2; cases h2
+        have hopn : clsOf x ≠ .opn := by
+          intro e
+          apply hx
+          revert e
+          unfold clsOf
+          by_cases h1 : isSpace x = true <;> by_cases h2 : (x == ',') = true <;>
+            by_cases h3 : (x == '(') = true <;> by_cases h4 : (x == ')') = true <;> simp_all
+        generalize clsOf x = k at *
+        cases k <;> simp_all
+
+/-! ### splicing a value at a whole-tag position -/
+
+theorem run_start' : ∀ (x : Str) (c : Char) (q : Option Cls), firstNonWs x = some c →
+    (clsOf c = .opn ∨ clsOf c = .other) → (q = none ∨ q = some .comma ∨ q = some .opn) →
+    run q x = run none x
+  | [], _, _, h, _, _ => by simp [firstNonWs] at h
+  | d :: ds, c, q, h, hc, hq => by
+    rw [firstNonWs] at h
+    by_cases hs : isSpace d = true
+    · rw [if_pos hs] at h
+      rw [run, run, if_pos ((clsOf_ws_iff d).mpr hs), if_pos ((clsOf_ws_iff d).mpr hs)]
+      exact run_start' ds c q h hc hq
+    · rw [if_neg hs] at h
+      have : d = c := Option.some.inj h
+      subst this
+      have hw : clsOf d ≠ .ws := fun e => hs ((clsOf_ws_iff d).mp e)
+      rw [run, run, if_neg hw, if_neg hw]
+      rcases hc with e | e <;> rw [e] <;> rcases hq with e2 | e2 | e2 <;> subst e2 <;> rfl
+
+theorem chain_first_swap : ∀ (post : Str) (q q' : Option Cls), chain q post = true →
+    (firstNonWs post = none → q' ≠ some .comma) →
+    (∀ c, firstNonWs post = some c → ok q' (clsOf c) = true) → chain q' post = true
+  | [], _, q', _, h1, _ => by simpa [chain_nil] using h1 rfl
+  | d :: ds, q, q', h, h1, h2 => by
+    by_cases hs : isSpace d = true
+    · have hw := (clsOf_ws_iff d).mpr hs
+      have e : ∀ r, chain r (d :: ds) = chain r ds := by
+        intro r; unfold chain; rw [run, if_pos hw]
+      rw [e] at h ⊢
+      refine chain_first_swap ds q q' h ?_ ?_
+      · intro hn; exact h1 (by rw [firstNonWs, if_pos hs]; exact hn)
+      · intro c hc; exact h2 c (by rw [firstNonWs, if_pos hs]; exact hc)
+    · have hw : clsOf d ≠ .ws := fun e => hs ((clsOf_ws_iff d).mp e)
+      have e : ∀ r, chain r (d :: ds) = (ok r (clsOf d) && chain (some (clsOf d)) ds) := by
+        intro r; unfold chain; rw [run, if_neg hw]
+        by_cases ho : ok r (clsOf d) = true <;> simp [ho]
+      rw [e] at h ⊢
+      simp only [Bool.and_eq_true] at h ⊢
+      exact ⟨h2 d (by rw [firstNonWs, if_neg hs]), h.2⟩
+
+theorem depth_shift : ∀ (s : Str) (a b k : Nat), depth a s = some b → depth (a + k) s = some (b + k)
+  | [], a, b, k, h => by simp [depth] at h ⊢; omega
+  | c :: cs, a, b, k, h => by
+    rw [depth] at h ⊢
+    split
+    · rename_i hc
+      rw [if_pos hc] at h
+      have := depth_shift cs (a + 1) b k h
+      rw [show a + k + 1 = a + 1 + k by omega]; exact this
+    · rename_i hc
+      rw [if_neg hc] at h
+      split
+      · rename_i hc2
+        rw [if_pos hc2] at h
+        split at h
+        · cases h
+        · rename_i ha
+          rw [if_neg (by omega)]
+          have := depth_shift cs (a - 1) b k h
+          rw [show a + k - 1 = a - 1 + k by omega]; exact this
+      · rename_i hc2
+        rw [if_neg hc2] at h
+        exact depth_shift cs a b k h
+
+/-- splicing an item at a whole-tag reference keeps every adjacent pair allowed and the depth profile -/
+theorem splice_core (pre ref post v : Str) (href : ∀ c ∈ ref, clsOf c = .other) (hrne : ref ≠ [])
+    (hwl : lastNonWs pre = none ∨ lastNonWs pre = some ',' ∨ lastNonWs pre = some '(')
+    (hwr : firstNonWs post = none ∨ firstNonWs post = some ',' ∨ firstNonWs post = some ')')
+    (hv : itemOk v) (hwf : chain none (pre ++ (ref ++ post)) = true) :
+    chain none (pre ++ (v ++ post)) = true := by
+  obtain ⟨q, h0, t0⟩ := chain_append_true hwf
+  obtain ⟨q3, h3, h⟩ := chain_append_true t0
+  obtain ⟨e3, -⟩ := run_other ref href hrne q q3 h3
+  subst e3
+  have hq : q = none ∨ q = some .comma ∨ q = some .opn := by
+    have := run_lastNonWs _ _ _ h0
+    rcases hwl with e | e | e <;> rw [e] at this <;> simp [this, clsOf_comma, clsOf_opn]
+  obtain ⟨⟨c, hf, hc⟩, hr⟩ := hv
+  apply chain_append_intro h0
+  have e : run q v = run none v := run_start' v c q hf hc hq
+  rcases hr with hk | hk
+  all_goals
+    apply chain_append_intro (e.trans hk)
+    refine chain_first_swap post _ _ h ?_ ?_
+    · intro _; simp
+    · intro d hd
+      rcases hwr with e2 | e2 | e2 <;> rw [hd] at e2
+      · cases e2
+      · have : d = ',' := Option.some.inj e2
+        subst this; rw [clsOf_comma]; rfl
+      · have : d = ')' := Option.some.inj e2
+        subst this; rw [clsOf_cls]; rfl
+
+theorem splice_depth (pre ref post v : Str) (href : ∀ c ∈ ref, clsOf c = .other)
+    (hv : depth 0 v = some 0) (d0 e : Nat) (h : depth d0 (pre ++ (ref ++ post)) = some e) :
+    depth d0 (pre ++ (v ++ post)) = some e := by
+  rw [depth_append] at h ⊢
+  cases hp : depth d0 pre with
+  | none => simp [hp] at h
+  | some d =>
+    simp only [hp, Option.bind_some] at h ⊢
+    rw [depth_append, depth_noparen ref d (fun c hc => other_noparen c (href c hc)), Option.bind_some] at h
+    have := depth_shift v 0 0 d hv
+    simp only [Nat.zero_add] at this
+    rw [depth_append, this, Option.bind_some]
+    exact h
+
+/-! ### no new occurrence of another reference -/
+
+theorem refChar_facts (c : Char) (h : isRefChar c = true) :
+    clsOf c = .other ∧ c ≠ '{' ∧ c ≠ '}' := by
+  have hne : ∀ x : Char, isRefChar x = false → c ≠ x := by
+    intro x hx e; subst e; rw [h] at hx; cases hx
+  have hs : isSpace c = false := by
+    cases hh : isSpace c
+    · rfl
+    · exfalso
+      simp only [isSpace, Bool.or_eq_true, beq_iff_eq] at hh
+      rcases hh with ((((((((e | e) | e) | e) | e) | e) | e) | e) | e) | e <;>
+        exact hne _ (by decide) e
+  refine ⟨?_, hne _ (by decide), hne _ (by decide)⟩
+  have h1 := hne ',' (by decide)
+  have h2 := hne '(' (by decide)
+  have h3 := hne ')' (by decide)
+  simp [clsOf, hs, h1, h2, h3]
+
+theorem splitFirst_skip (rest : Str) : ∀ (xs Y : Str), '{' ∉ xs →
+    splitFirst ('{' :: rest) (xs ++ Y) =
+      (splitFirst ('{' :: rest) Y).map (fun p => (xs ++ p.1, p.2))
+  | [], Y, _ => by
+    simp only [List.nil_append]
+    cases splitFirst ('{' :: rest) Y with
+    | none => rfl
+    | some v => cases v; rfl
+  | c :: cs, Y, h => by
+    have hc : c ≠ '{' := fun e => h (by simp [e])
+    have ih := splitFirst_skip rest cs Y (fun e => h (by simp [e]))
+    have hp : List.isPrefixOf ('{' :: rest) (c :: (cs ++ Y)) = false := by
+      simp [List.isPrefixOf, Ne.symm hc]
+    rw [List.cons_append, splitFirst, hp, ih]
+    cases splitFirst ('{' :: rest) Y <;> simp
+
+theorem splitFirst_noBrace (rest : Str) (xs : Str) (h : '{' ∉ xs) :
+    splitFirst ('{' :: rest) xs = none := by
+  have := splitFirst_skip rest xs [] h
+  simpa [splitFirst] using this
+
+/-- an occurrence in `A ++ C` lies in `A`, lies in `C`, or straddles the junction -/
+theorem splitFirst_append_none (R A C : Str) (hR : R ≠ [])
+    (hA : splitFirst R A = none) (hC : splitFirst R C = none)
+    (hb : ∀ a' m, a' ≠ [] → m ≠ [] → R = a' ++ m → a' <:+ A → m <+: C → False) :
+    splitFirst R (A ++ C) = none := by
+  rw [splitFirst_none_iff R hR] at hA hC ⊢
+  rintro ⟨X, Y, e⟩
+  rw [List.append_assoc] at e
+  rcases List.append_eq_append_iff.mp e with ⟨a', e1, e2⟩ | ⟨c', e1, e2⟩
+  · -- A = X ++ a', R ++ Y = a' ++ C
+    rcases List.append_eq_append_iff.mp e2 with ⟨m, e3, e4⟩ | ⟨m, e3, e4⟩
+    · -- a' = R ++ m
+      exact hA ⟨X, m, by rw [e1, e3, List.append_assoc]⟩
+    · -- R = a' ++ m, C = m ++ Y
+      by_cases ha : a' = []
+      · subst ha
+        exact hC ⟨[], Y, by simp [e4, e3]⟩
+      · by_cases hm : m = []
+        · subst hm
+          exact hA ⟨X, [], by simp [e1, e3]⟩
+        · exact hb a' m ha hm e3 ⟨X, e1.symm⟩ ⟨Y, e4.symm⟩
+  · exact hC ⟨c', Y, by rw [e2, List.append_assoc]⟩
+
+theorem splitFirst_none_left (R A C : Str) (hR : R ≠ []) (h : splitFirst R (A ++ C) = none) :
+    splitFirst R A = none := by
+  rw [splitFirst_none_iff R hR] at h ⊢
+  rintro ⟨X, Y, e⟩
+  exact h ⟨X, Y ++ C, by rw [← e]; simp⟩
+
+theorem splitFirst_none_right (R A C : Str) (hR : R ≠ []) (h : splitFirst R (A ++ C) = none) :
+    splitFirst R C = none := by
+  rw [splitFirst_none_iff R hR] at h ⊢
+  rintro ⟨X, Y, e⟩
+  exact h ⟨A ++ X, Y, by rw [← e]; simp⟩
+
+/-- a proper, non-empty prefix of `{name}` ends in `{` or a name character; the rest begins with a
+name character or `}` -/
+theorem mkRef_split (name a' m : Str) (ha : a' ≠ []) (hm : m ≠ []) (e : mkRef name = a' ++ m) :
+    (∀ x, a'.getLast? = some x → x = '{' ∨ x ∈ name) ∧ (∀ x, m.head? = some x → x ∈ name ∨ x = '}') := by
+  unfold mkRef at e
+  cases a' with
+  | nil => exact absurd rfl ha
+  | cons a as =>
+    simp only [List.cons_append, List.cons.injEq] at e
+    obtain ⟨e0, e1⟩ := e
+    -- name ++ ['}'] = as ++ m
+    rcases List.append_eq_append_iff.mp e1 with ⟨k, e2, e3⟩ | ⟨k, e2, e3⟩
+    · -- as = name ++ k, ['}'] = k ++ m
+      have hk : k = [] := by
+        cases k with
+        | nil => rfl
+        | cons y ys =>
+          simp only [List.cons_append, List.cons.injEq] at e3
+          have := e3.2
+          have : m = [] := by
+            have h2 := congrArg List.length this
+            simp at h2
+            exact List.length_eq_zero_iff.mp (by omega)
+          exact absurd this hm
+      subst hk
+      simp only [List.append_nil, List.nil_append] at e2 e3
+      subst e3
+      rw [← e2]
+      constructor
+      · intro x hx
+        cases as with
+        | nil => simp at hx; left; rw [← hx, e0]
+        | cons n ns =>
+          right
+          rw [List.getLast?_cons_cons] at hx
+          exact List.mem_of_getLast? hx
+      · intro x hx; right; simpa using hx.symm
+    · -- name = as ++ k, m = k ++ ['}']
+      subst e2 e3
+      constructor
+      · intro x hx
+        cases as with
+        | nil => simp at hx; left; rw [← hx, e0]
+        | cons n ns =>
+          right
+          rw [List.getLast?_cons_cons] at hx
+          exact List.mem_append_left _ (List.mem_of_getLast? hx)
+      · intro x hx
+        cases k with
+        | nil => right; simpa using hx.symm
+        | cons y ys =>
+          left
+          simp only [List.cons_append, List.head?_cons, Option.some.injEq] at hx
+          subst hx; simp
+
+theorem suffix_getLast (a' A : Str) (ha : a' ≠ []) (h : a' <:+ A) : a'.getLast? = A.getLast? := by
+  obtain ⟨X, e⟩ := h
+  rw [← e, List.getLast?_append]
+  cases h : a'.getLast? with
+  | none => exact absurd (List.getLast?_eq_none_iff.mp h) ha
+  | some x => rfl
+
+theorem prefix_head (m C : Str) (hm : m ≠ []) (h : m <+: C) : m.head? = C.head? := by
+  obtain ⟨Y, e⟩ := h
+  cases m with
+  | nil => exact absurd rfl hm
+  | cons x xs => rw [← e]; rfl
+
+theorem clsOf_opn_iff (c : Char) (h : clsOf c = .opn) : c = '(' := by
+  revert h; unfold clsOf
+  by_cases h1 : isSpace c = true <;> by_cases h2 : (c == ',') = true <;>
+    by_cases h3 : (c == '(') = true <;> by_cases h4 : (c == ')') = true <;> simp_all
+
+theorem clsOf_cls_iff (c : Char) (h : clsOf c = .cls) : c = ')' := by
+  revert h; unfold clsOf
+  by_cases h1 : isSpace c = true <;> by_cases h2 : (c == ',') = true <;>
+    by_cases h3 : (c == '(') = true <;> by_cases h4 : (c == ')') = true <;> simp_all
+
+/-- what stands at the junction when the remover emits nothing, and: the result is empty or not blank -/
+theorem remove_extra (U c1 p1 ref p2 c2 W : Str)
+    (hc1 : ∀ c ∈ c1, isC c = true) (hp1 : ∀ c ∈ p1, isP1 c = true)
+    (hp2 : ∀ c ∈ p2, isP2 c = true) (hc2 : ∀ c ∈ c2, isC c = true)
+    (href : ∀ c ∈ ref, clsOf c = .other) (hrne : ref ≠ [])
+    (hU : U = [] ∨ ∃ us c, U = us ++ [c] ∧ isC c = false)
+    (hW : W = [] ∨ ∃ c cs, W = c :: cs ∧ isC c = false)
+    (hwl : lastNonWs (U ++ (c1 ++ p1)) = none ∨ lastNonWs (U ++ (c1 ++ p1)) = some ',' ∨
+           lastNonWs (U ++ (c1 ++ p1)) = some '(')
+    (hwr : firstNonWs (p2 ++ (c2 ++ W)) = none ∨ firstNonWs (p2 ++ (c2 ++ W)) = some ',' ∨
+           firstNonWs (p2 ++ (c2 ++ W)) = some ')')
+    (hwf : chain none (U ++ (c1 ++ (p1 ++ (ref ++ (p2 ++ (c2 ++ W)))))) = true) :
+    (removerOut true ⟨U, c1, p1, p2, c2, W⟩ ≠ [] ∨ U = [] ∨ (∃ us, U = us ++ ['(']) ∨ W = [] ∨
+      (∃ cs, W = ')' :: cs)) ∧
+    (U ++ (removerOut true ⟨U, c1, p1, p2, c2, W⟩ ++ W) = [] ∨
+      ∃ c ∈ U ++ (removerOut true ⟨U, c1, p1, p2, c2, W⟩ ++ W), clsOf c ≠ .ws) := by
+  obtain ⟨q0, h0, t0⟩ := chain_append_true hwf
+  obtain ⟨q1, h1, t1⟩ := chain_append_true t0
+  obtain ⟨q2, h2, t2⟩ := chain_append_true t1
+  obtain ⟨q3, h3, t3⟩ := chain_append_true t2
+  obtain ⟨q4, h4, t4⟩ := chain_append_true t3
+  obtain ⟨q5, h5, h⟩ := chain_append_true t4
+  clear t0 t1 t2 t3 t4
+  have f1 := run_isC c1 hc1 q0 q1 h1
+  have f2 := run_isP1 p1 hp1 q1 q2 h2
+  obtain ⟨e3, -⟩ := run_other ref href hrne q2 q3 h3
+  subst e3
+  have f4 := run_isP2 p2 hp2 _ q4 h4
+  have f5 := run_isC c2 hc2 q4 q5 h5
+  have fl : q2 = none ∨ q2 = some .comma ∨ q2 = some .opn := by
+    have hr : run none (U ++ (c1 ++ p1)) = some q2 := by
+      rw [run_append, h0, Option.bind_some, run_append, h1, Option.bind_some, h2]
+    have := run_lastNonWs _ _ _ hr
+    rcases hwl with e | e | e <;> rw [e] at this <;> simp [this, clsOf_comma, clsOf_opn]
+  simp only [removerOut]
+  by_cases hab : p1.count '(' > p2.count ')'
+  · simp only [hab, if_true]
+    have hne : c1 ++ List.replicate (p1.count '(' - p2.count ')') '(' ≠ [] := by
+      intro e
+      have := congrArg List.length e
+      simp at this; omega
+    refine ⟨Or.inl hne, Or.inr ⟨'(', ?_, by rw [clsOf_opn]; simp⟩⟩
+    simp only [List.mem_append, List.mem_replicate]
+    exact Or.inr (Or.inl (Or.inr ⟨by omega, trivial⟩))
+  · by_cases hba : p2.count ')' > p1.count '('
+    · simp only [hab, hba, if_true, if_false]
+      have hne : List.replicate (p2.count ')' - p1.count '(') ')' ++ c2 ≠ [] := by
+        intro e
+        have := congrArg List.length e
+        simp at this; omega
+      refine ⟨Or.inl hne, Or.inr ⟨')', ?_, by rw [clsOf_cls]; simp⟩⟩
+      simp only [List.mem_append, List.mem_replicate]
+      exact Or.inr (Or.inl (Or.inl ⟨by omega, trivial⟩))
+    · simp only [hab, hba, if_false]
+      by_cases hcm : ',' ∈ c1
+      · simp only [List.contains_iff_mem, hcm, if_true]
+        have hq0' : q0 = some .cls ∨ q0 = some .other := by
+          rcases f1 with ⟨_, hn⟩ | ⟨_, _, e⟩
+          · exact absurd hcm hn
+          · exact e
+        have hUne : ∃ us c, U = us ++ [c] ∧ isC c = false := by
+          rcases hU with e | e
+          · subst e
+            simp only [run] at h0
+            have : q0 = none := (Option.some.inj h0).symm
+            rcases hq0' with e2 | e2 <;> rw [this] at e2 <;> cases e2
+          · exact e
+        obtain ⟨us, cu, eU, hcu⟩ := hUne
+        refine ⟨?_, Or.inr ⟨cu, by simp [eU], (notC_cls cu hcu).1⟩⟩
+        by_cases hc2e : c2 = []
+        · right; right; right
+          rcases hW with e | ⟨c, cs, e, hc⟩
+          · exact Or.inl e
+          · right
+            have hc2m : ',' ∉ c2 := by simp [hc2e]
+            have e5 : q5 = q4 := by
+              rcases f5 with ⟨e', _⟩ | ⟨_, hm, _⟩
+              · exact e'
+              · exact absurd hm hc2m
+            subst e5 e
+            rw [chain_cons_nonC _ _ _ hc] at h
+            simp only [Bool.and_eq_true] at h
+            have hcls : clsOf c = .cls := by
+              by_cases hb : ')' ∈ p2
+              · have e4 : q5 = some .cls := by
+                  rcases f4 with ⟨_, hn⟩ | ⟨e', _, _⟩
+                  · exact absurd hb hn
+                  · exact e'
+                have h1' := h.1
+                rw [e4] at h1'
+                have := notC_cls c hc
+                generalize clsOf c = x at *
+                cases x <;> simp_all [ok]
+              · have hs : isSpace c = false := by
+                  simp only [isC, Bool.or_eq_false_iff] at hc; exact hc.1
+                have hf : firstNonWs (p2 ++ (c2 ++ c :: cs)) = some c := by
+                  rw [firstNonWs_ws_append _ _ (isP2_noCls_ws p2 hp2 hb),
+                    firstNonWs_ws_append _ _ (isC_noComma_ws c2 hc2 hc2m)]
+                  simp [firstNonWs, hs]
+                rw [hf] at hwr
+                rcases hwr with e' | e' | e'
+                · cases e'
+                · have : c = ',' := Option.some.inj e'
+                  subst this; simp [isC] at hc
+                · have : c = ')' := Option.some.inj e'
+                  subst this; exact clsOf_cls
+            exact ⟨cs, by rw [clsOf_cls_iff c hcls]⟩
+        · exact Or.inl hc2e
+      · have hcm' : c1.contains ',' = false := by
+          simpa [List.contains_iff_mem] using hcm
+        simp only [hcm', if_false, Bool.false_eq_true]
+        have e1 : q1 = q0 := by
+          rcases f1 with ⟨e, _⟩ | ⟨_, hm, _⟩
+          · exact e
+          · exact absurd hm hcm
+        subst e1
+        have h3' : q1 = none ∨ q1 = some .comma ∨ q1 = some .opn := by
+          rcases f2 with ⟨e, _⟩ | ⟨_, _, ho⟩
+          · rw [← e]; exact fl
+          · rcases q1 with _ | (_|_|_|_|_) <;> simp_all [ok]
+        constructor
+        · right
+          rcases hU with e | ⟨us, c, e, hc⟩
+          · exact Or.inl e
+          · right; left
+            subst e
+            have hq := run_snoc_state us c none q1 h0 (notC_cls c hc).1
+            have hn := notC_cls c hc
+            rcases h3' with e' | e' | e'
+            · rw [e'] at hq; cases hq
+            · rw [e'] at hq; exact absurd (Option.some.inj hq).symm hn.2
+            · rw [e'] at hq
+              exact ⟨us, by rw [clsOf_opn_iff c (Option.some.inj hq).symm]⟩
+        · rcases hU with e | ⟨us, c, e, hc⟩
+          · rcases hW with e' | ⟨c, cs, e', hc⟩
+            · left; simp [e, e']
+            · right; exact ⟨c, by simp [e'], (notC_cls c hc).1⟩
+          · right; exact ⟨c, by simp [e], (notC_cls c hc).1⟩
+
 end HedVerif.Assemble
 
 namespace HedVerif.C06
@@ -1198,5 +1817,530 @@ theorem remover_keeps_balance (t name v pre post : Str)
 `(({c}), Red)` with `c` absent is `(Red)`, not `((Red)` -/
 example : replaceRef "(({c}), Red)".toList ['c'] NA = "(Red)".toList ∧ balanced "(Red)".toList ∧
     ¬ balanced "((Red)".toList := by decide +kernel
+
+
+/-- **File-order independence.**  Permuting the columns of the file (header and every row alike, so
+that each named cell is the same) changes neither the transformer columns nor any assembled row. -/
+theorem file_order_independent (refs : List Str) (sc : Sidecar) (header header' r r' : List Str)
+    (hp : header'.Perm header) (hcell : ∀ n, cellOf header' r' n = cellOf header r n) :
+    activeCols sc header' = activeCols sc header ∧ row refs sc header' r' = row refs sc header r := by
+  have h := activeCols_perm sc header header' hp
+  refine ⟨h, ?_⟩
+  unfold row transformed
+  rw [h]
+  simp only [hcell]
+
+/-- …hence the whole series, for tables with the same rows under a column permutation. -/
+theorem series_file_order_independent (sc : Sidecar) (t t' : Table)
+    (hp : t'.header.Perm t.header) (hlen : t'.rows.length = t.rows.length)
+    (hcell : ∀ (i : Nat) (n : Str), cellOf t'.header (t'.rows[i]?.getD []) n = cellOf t.header (t.rows[i]?.getD []) n) :
+    series sc t' = series sc t := by
+  unfold series seriesWith
+  apply List.ext_getElem?
+  intro i
+  simp only [List.getElem?_map]
+  by_cases hi : i < t.rows.length
+  · have hi' : i < t'.rows.length := by omega
+    have e := (file_order_independent (refsOf sc) sc t.header t'.header (t.rows[i]?.getD [])
+      (t'.rows[i]?.getD []) hp (hcell i)).2
+    simp only [List.getElem?_eq_getElem hi, List.getElem?_eq_getElem hi', Option.getD_some,
+      Option.map_some] at e ⊢
+    rw [e]
+  · have hi' : ¬ i < t'.rows.length := by omega
+    simp [List.getElem?_eq_none (Nat.le_of_not_lt hi), List.getElem?_eq_none (Nat.le_of_not_lt hi')]
+
+example : series [(['c'], .obj [(HEDNAME, .obj [(['k'], .str "Red".toList)])])]
+      ⟨[['c'], HEDNAME], [[['k'], "Blue".toList]]⟩ =
+    series [(['c'], .obj [(HEDNAME, .obj [(['k'], .str "Red".toList)])])]
+      ⟨[HEDNAME, ['c']], [["Blue".toList, ['k']]]⟩ := by decide +kernel
+
+/-- **Reference detection** (`Sidecar.get_column_refs`, regex `\{([a-z_\-0-9]+)\}` with IGNORECASE):
+a non-empty name over `[A-Za-z0-9_-]` standing between braces anywhere in a string is found. -/
+theorem findRefs_finds (pre name post : Str) (hne : name ≠ []) (hn : ∀ c ∈ name, isRefChar c = true) :
+    name ∈ findRefs (pre ++ mkRef name ++ post) := by
+  induction pre with
+  | nil =>
+    have e : mkRef name ++ post = '{' :: (name ++ '}' :: post) := by simp [mkRef]
+    rw [List.nil_append, e, findRefs]
+    have h1 : (name ++ '}' :: post).takeWhile isRefChar = name := by
+      rw [List.takeWhile_append_of_pos hn, List.takeWhile_cons, if_neg (by simp [isRefChar_close])]
+      simp
+    have h2 : (name ++ '}' :: post).dropWhile isRefChar = '}' :: post := by
+      rw [List.dropWhile_append_of_pos hn, List.dropWhile_cons, if_neg (by simp [isRefChar_close])]
+    simp only [h1, h2]
+    have : name.isEmpty = false := by cases name <;> simp_all
+    simp [this]
+  | cons c cs ih => exact findRefs_mono c _ name ih
+
+/-- …and so every `{name}` written in a HED string of a typed (categorical or value) sidecar column is
+in the model's reference set. -/
+theorem refsOf_finds (sc : Sidecar) (col : Str) (e : J) (s pre name post : Str)
+    (hcol : (col, e) ∈ sc) (hs : s ∈ hedStrings e) (heq : s = pre ++ mkRef name ++ post)
+    (hne : name ≠ []) (hn : ∀ c ∈ name, isRefChar c = true) : name ∈ refsOf sc := by
+  unfold refsOf
+  rw [List.mem_eraseDups, List.mem_flatMap]
+  refine ⟨(col, e), hcol, ?_⟩
+  rw [List.mem_flatMap]
+  exact ⟨s, hs, heq ▸ findRefs_finds pre name post hne hn⟩
+
+example : (∀ c ∈ "k-1".toList, isRefChar c = true) ∧ (∀ c ∈ "x_Y9".toList, isRefChar c = true) ∧
+    findRefs "Red, {k-1}, ({x_Y9}), {no good}, {}".toList = ["k-1".toList, "x_Y9".toList] := by
+  decide +kernel
+
+
+/-- **A well-formed replacement spliced at a whole-tag position keeps the text well-formed.**
+`{name}` occurs once in `t` as a whole tag, `t` is accepted by the delimiter checker and balanced, the
+replacement `v` (neither empty nor `n/a`) is itself accepted, balanced and not blank: then
+`replace_ref` returns `pre ++ v ++ post`, which is accepted and balanced. -/
+theorem splice_wellformed (t name v pre post : Str)
+    (hv : v ≠ []) (hna : v ≠ NA) (hname : ∀ c ∈ name, clsOf c = .other)
+    (hs : splitFirst (mkRef name) t = some (pre, post))
+    (hone : splitFirst (mkRef name) post = none)
+    (hwf : delimOk t = true) (hb : balanced t) (hwhole : wholeTag pre post) (hgv : GoodItem v) :
+    replaceRef t name v = pre ++ (v ++ post) ∧ delimOk (replaceRef t name v) = true ∧
+    balanced (replaceRef t name v) := by
+  have hrep : replaceRef t name v = pre ++ (v ++ post) := by
+    rw [(splice_at t name v pre post hv hna hs).2, splice_absent post name v hone, List.append_assoc]
+  have ht := splitFirst_eq _ _ _ _ hs
+  have href : ∀ c ∈ mkRef name, clsOf c = .other := by
+    intro c hc
+    simp only [mkRef, List.mem_cons, List.mem_append, List.not_mem_nil, or_false] at hc
+    rcases hc with rfl | h | rfl
+    · decide
+    · exact hname c h
+    · decide
+  rw [hrep]
+  refine ⟨rfl, ?_, ?_⟩
+  · rw [delimOk_eq_chain] at hwf ⊢
+    rw [ht, List.append_assoc] at hwf
+    exact splice_core pre (mkRef name) post v href (mkRef_ne name) hwhole.1 hwhole.2 (good_itemOk v hgv) hwf
+  · unfold balanced at hb ⊢
+    rw [ht, List.append_assoc] at hb
+    exact splice_depth pre (mkRef name) post v href hgv.2.1 0 0 hb
+
+example : GoodItem "(Red, Blue)".toList ∧ GoodItem "Label/3".toList ∧ ¬ GoodItem " ".toList ∧
+    ¬ GoodItem "(Red".toList := by decide +kernel
+
+end HedVerif.C06
+
+namespace HedVerif.Assemble
+
+/-! ### one reference step on a good text -/
+
+theorem mem_nonWs_first (s : Str) (h : ∃ c ∈ s, clsOf c ≠ .ws) : firstNonWs s ≠ none := by
+  intro e
+  obtain ⟨c, hc, hn⟩ := h
+  exact hn (firstNonWs_none_ws s e c hc)
+
+theorem lastNonWs_snoc (as : Str) (x : Char) (hx : isSpace x = false) :
+    lastNonWs (as ++ [x]) = some x := by
+  induction as with
+  | nil => simp [lastNonWs, hx]
+  | cons a as ih => rw [List.cons_append, lastNonWs, ih]
+
+theorem out_chars (g : Groups) : ∀ x ∈ removerOut true g, x ∈ g.c1 ∨ x ∈ g.c2 ∨ x = '(' ∨ x = ')' := by
+  intro x hx
+  simp only [removerOut] at hx
+  split at hx
+  · rcases List.mem_append.mp hx with h | h
+    · exact Or.inl h
+    · exact Or.inr (Or.inr (Or.inl (List.mem_replicate.mp h).2))
+  · split at hx
+    · rcases List.mem_append.mp hx with h | h
+      · exact Or.inr (Or.inr (Or.inr (List.mem_replicate.mp h).2))
+      · exact Or.inr (Or.inl h)
+    · simp only [if_true] at hx
+      split at hx
+      · exact Or.inr (Or.inl hx)
+      · simp at hx
+
+/-- the value of a referenced column: absent, or an item without braces -/
+def ValOK (v : Str) : Prop := v = [] ∨ v = NA ∨ (GoodItem v ∧ '{' ∉ v)
+
+theorem mkRef_other (name : Str) (hcls : ∀ c ∈ name, clsOf c = .other) :
+    ∀ c ∈ mkRef name, clsOf c = .other := by
+  intro c hc
+  simp only [mkRef, List.mem_cons, List.mem_append, List.not_mem_nil, or_false] at hc
+  rcases hc with rfl | h | rfl
+  · decide
+  · exact hcls c h
+  · decide
+
+/-- a character of a reference is neither a blank nor a delimiter -/
+theorem refChars_bad (name' : Str) (hn' : ∀ c ∈ name', isRefChar c = true) (x : Char)
+    (hx : x ∈ name' ∨ x = '}' ∨ x = '{') :
+    isC x = false ∧ x ≠ '(' ∧ x ≠ ')' ∧ isSpace x = false := by
+  rcases hx with h | h | h
+  · have := refChar_facts x (hn' x h)
+    have hs : isSpace x = false := by
+      cases hh : isSpace x
+      · rfl
+      · rw [(clsOf_ws_iff x).mpr hh] at this; cases this.1
+    refine ⟨?_, ?_, ?_, hs⟩
+    · cases hh : isC x
+      · rfl
+      · rcases isC_cls x hh with e' | e'
+        · rw [e'] at this; cases this.1
+        · subst e'; revert this; decide
+    · intro e'; subst e'; revert this; decide
+    · intro e'; subst e'; revert this; decide
+  · subst h; decide
+  · subst h; decide
+
+/-- splice step: no reference that was absent appears -/
+theorem splice_no_new (pre post v name name' : Str) (hn' : ∀ c ∈ name', isRefChar c = true)
+    (hbr : '{' ∉ v)
+    (hwl : lastNonWs pre = none ∨ lastNonWs pre = some ',' ∨ lastNonWs pre = some '(')
+    (habs : splitFirst (mkRef name') (pre ++ (mkRef name ++ post)) = none) :
+    splitFirst (mkRef name') (pre ++ (v ++ post)) = none := by
+  have hR' := mkRef_ne name'
+  have hA := splitFirst_none_left (mkRef name') pre _ hR' habs
+  have hB := splitFirst_none_right (mkRef name') (mkRef name) post hR'
+    (splitFirst_none_right (mkRef name') pre _ hR' habs)
+  have hC : splitFirst (mkRef name') (v ++ post) = none := by
+    have := splitFirst_skip (name' ++ ['}']) v post hbr
+    rw [show mkRef name' = '{' :: (name' ++ ['}']) from rfl, this]
+    rw [show mkRef name' = '{' :: (name' ++ ['}']) from rfl] at hB
+    rw [hB]; rfl
+  apply splitFirst_append_none _ _ _ hR' hA hC
+  intro a' m ha hm e hsuf _
+  have hl := (mkRef_split name' a' m ha hm e).1
+  have hg := suffix_getLast a' pre ha hsuf
+  cases hx : a'.getLast? with
+  | none => exact ha (List.getLast?_eq_none_iff.mp hx)
+  | some x =>
+    have hb := refChars_bad name' hn' x (by rcases hl x hx with e' | e'; exact Or.inr (Or.inr e'); exact Or.inl e')
+    have hxc : x ≠ ',' := by intro e'; subst e'; simp [isC] at hb
+    rw [hx] at hg
+    obtain ⟨as, eas⟩ := List.getLast?_eq_some_iff.mp hg.symm
+    have hlast := lastNonWs_snoc as x hb.2.2.2
+    rw [← eas] at hlast
+    rcases hwl with e' | e' | e' <;> rw [hlast] at e'
+    · cases e'
+    · exact hxc (Option.some.inj e')
+    · exact hb.2.1 (Option.some.inj e')
+
+/-- removal step: no reference that was absent appears -/
+theorem remove_no_new (g : Groups) (name name' : Str) (hn' : ∀ c ∈ name', isRefChar c = true)
+    (hc1 : ∀ c ∈ g.c1, isC c = true) (hc2 : ∀ c ∈ g.c2, isC c = true)
+    (hJ : removerOut true g ≠ [] ∨ g.u = [] ∨ (∃ us, g.u = us ++ ['(']) ∨ g.w = [] ∨ (∃ cs, g.w = ')' :: cs))
+    (habs : splitFirst (mkRef name')
+      (g.u ++ (g.c1 ++ (g.p1 ++ (mkRef name ++ (g.p2 ++ (g.c2 ++ g.w)))))) = none) :
+    splitFirst (mkRef name') (g.u ++ (removerOut true g ++ g.w)) = none := by
+  have hR' := mkRef_ne name'
+  have hA := splitFirst_none_left (mkRef name') g.u _ hR' habs
+  have hB : splitFirst (mkRef name') g.w = none :=
+    splitFirst_none_right (mkRef name') g.c2 _ hR' (splitFirst_none_right (mkRef name') g.p2 _ hR'
+      (splitFirst_none_right (mkRef name') (mkRef name) _ hR' (splitFirst_none_right (mkRef name') g.p1 _ hR'
+      (splitFirst_none_right (mkRef name') g.c1 _ hR' (splitFirst_none_right (mkRef name') g.u _ hR' habs)))))
+  have hob : '{' ∉ removerOut true g := by
+    intro hm
+    rcases out_chars g _ hm with h | h | h | h
+    · have := hc1 _ h; revert this; decide
+    · have := hc2 _ h; revert this; decide
+    · cases h
+    · cases h
+  have hC : splitFirst (mkRef name') (removerOut true g ++ g.w) = none := by
+    have := splitFirst_skip (name' ++ ['}']) (removerOut true g) g.w hob
+    rw [show mkRef name' = '{' :: (name' ++ ['}']) from rfl, this]
+    rw [show mkRef name' = '{' :: (name' ++ ['}']) from rfl] at hB
+    rw [hB]; rfl
+  apply splitFirst_append_none _ _ _ hR' hA hC
+  intro a' m ha hm e hsuf hpre
+  obtain ⟨hl, hh⟩ := mkRef_split name' a' m ha hm e
+  have hbad := refChars_bad name' hn'
+  by_cases hout : removerOut true g = []
+  · rw [hout, List.nil_append] at hpre
+    rcases hJ with h | h | ⟨us, h⟩ | h | ⟨cs, h⟩
+    · exact h hout
+    · rw [h] at hsuf
+      exact ha (List.suffix_nil.mp hsuf)
+    · have hg := suffix_getLast a' _ ha hsuf
+      rw [h, List.getLast?_concat] at hg
+      rcases hl '(' hg with e' | e'
+      · cases e'
+      · exact (hbad '(' (Or.inl e')).2.1 rfl
+    · rw [h] at hpre
+      exact hm (List.prefix_nil.mp hpre)
+    · have hg := prefix_head m _ hm hpre
+      rw [h, List.head?_cons] at hg
+      rcases hh ')' hg with e' | e'
+      · exact (hbad ')' (Or.inl e')).2.2.1 rfl
+      · cases e'
+  · have hg := prefix_head m _ hm hpre
+    cases ho : removerOut true g with
+    | nil => exact hout ho
+    | cons x xs =>
+      rw [ho, List.cons_append, List.head?_cons] at hg
+      have hx := hh x hg
+      have hxm : x ∈ removerOut true g := by rw [ho]; simp
+      have hb' := hbad x (by rcases hx with e' | e'; exact Or.inl e'; exact Or.inr (Or.inl e'))
+      rcases out_chars g x hxm with h | h | h | h
+      · rw [hc1 x h] at hb'; cases hb'.1
+      · rw [hc2 x h] at hb'; cases hb'.1
+      · exact hb'.2.1 h
+      · exact hb'.2.2.1 h
+
+/-- One `replace_ref` step on an accepted, balanced text in which `{name}` occurs once as a whole tag:
+the result is accepted, balanced, empty or not blank, and contains no reference that was not there. -/
+theorem step_good (t name v pre post : Str) (hname : ∀ c ∈ name, isRefChar c = true)
+    (hs : splitFirst (mkRef name) t = some (pre, post))
+    (hone : splitFirst (mkRef name) post = none)
+    (hwf : delimOk t = true) (hb : balanced t) (hwhole : wholeTag pre post) (hv : ValOK v) :
+    delimOk (replaceRef t name v) = true ∧ balanced (replaceRef t name v) ∧
+    (replaceRef t name v = [] ∨ firstNonWs (replaceRef t name v) ≠ none) ∧
+    ∀ name', (∀ c ∈ name', isRefChar c = true) → splitFirst (mkRef name') t = none →
+      splitFirst (mkRef name') (replaceRef t name v) = none := by
+  have hcls : ∀ c ∈ name, clsOf c = .other := fun c hc => (refChar_facts c (hname c hc)).1
+  have ht := splitFirst_eq _ _ _ _ hs
+  have href := mkRef_other name hcls
+  by_cases hrem : v = [] ∨ v = NA
+  · -- removal (value empty or n/a)
+    obtain ⟨hrep, h1⟩ := HedVerif.C06.na_wellformed_partial t name v pre post hrem hcls hs hone hwf hwhole
+    have h2 := HedVerif.C06.remover_keeps_balance t name v pre post hrem hcls hs hone hb
+    obtain ⟨e1, e2, hc1, hp1, hp2, hc2, hU, hW⟩ := groups_spec pre post
+    have hwl := hwhole.1
+    have hwr := hwhole.2
+    generalize groups pre post = g at *
+    have hwf' := hwf
+    rw [delimOk_eq_chain, ht, e1, e2] at hwf'
+    simp only [List.append_assoc] at hwf'
+    rw [e1] at hwl
+    rw [e2] at hwr
+    obtain ⟨hJ, hN⟩ := remove_extra g.u g.c1 g.p1 (mkRef name) g.p2 g.c2 g.w hc1 hp1 hp2 hc2 href
+      (mkRef_ne name) hU hW hwl hwr hwf'
+    refine ⟨h1, h2, ?_, ?_⟩
+    · rw [hrep]
+      rcases hN with e | e
+      · exact Or.inl e
+      · exact Or.inr (mem_nonWs_first _ e)
+    · intro name' hn' habs
+      rw [hrep]
+      rw [ht, e1, e2] at habs
+      simp only [List.append_assoc] at habs
+      exact remove_no_new g name name' hn' hc1 hc2 hJ habs
+  · -- splice
+    have hgv : GoodItem v ∧ '{' ∉ v := by
+      rcases hv with h | h | h
+      · exact absurd (Or.inl h) hrem
+      · exact absurd (Or.inr h) hrem
+      · exact h
+    have hv0 : v ≠ [] := fun e => hrem (Or.inl e)
+    have hna : v ≠ NA := fun e => hrem (Or.inr e)
+    obtain ⟨hrep, h1, h2⟩ := HedVerif.C06.splice_wellformed t name v pre post hv0 hna hcls hs hone hwf hb
+      hwhole hgv.1
+    refine ⟨h1, h2, Or.inr ?_, ?_⟩
+    · rw [hrep]
+      apply mem_nonWs_first
+      have hcm : ∃ c ∈ v, clsOf c ≠ .ws := by
+        apply Classical.byContradiction
+        intro hn
+        have : ∀ c ∈ v, clsOf c = .ws := by
+          intro c hc
+          apply Classical.byContradiction
+          intro h'; exact hn ⟨c, hc, h'⟩
+        exact hgv.1.2.2 (ws_firstNonWs_none v this)
+      obtain ⟨c', hc', hn'⟩ := hcm
+      exact ⟨c', by simp [hc'], hn'⟩
+    · intro name' hn' habs
+      rw [hrep]
+      rw [ht, List.append_assoc] at habs
+      exact splice_no_new pre post v name name' hn' hgv.2 hwhole.1 habs
+
+/-! ### all references of one text, all items of a row -/
+
+theorem spliceAll_cons (r : Str) (L : List Str) (tr : List (Str × Str)) (T : Str) :
+    spliceAll (r :: L) tr T = spliceAll L tr (replaceRef T r ((tr.lookup r).getD [])) := rfl
+
+theorem spliceAll_absent (tr : List (Str × Str)) : ∀ (L : List Str) (T : Str),
+    (∀ r ∈ L, splitFirst (mkRef r) T = none) → spliceAll L tr T = T
+  | [], _, _ => rfl
+  | r :: L, T, h => by
+    rw [spliceAll_cons, HedVerif.C06.splice_absent T r _ (h r (by simp))]
+    exact spliceAll_absent tr L T (fun r' hr' => h r' (by simp [hr']))
+
+/-- the references of a host text: none of the live references occurs, or exactly one of them does,
+once and as a whole tag -/
+def OneRef (L : List Str) (T : Str) : Prop :=
+  (∀ r ∈ L, splitFirst (mkRef r) T = none) ∨
+  ∃ r0 ∈ L, ∃ pre post, splitFirst (mkRef r0) T = some (pre, post) ∧
+    splitFirst (mkRef r0) post = none ∧ wholeTag pre post ∧
+    ∀ r ∈ L, r ≠ r0 → splitFirst (mkRef r) T = none
+
+theorem spliceAll_good (tr : List (Str × Str)) : ∀ (L : List Str) (T : Str), L.Nodup →
+    (∀ r ∈ L, ∀ c ∈ r, isRefChar c = true) → (∀ r ∈ L, ValOK ((tr.lookup r).getD [])) →
+    delimOk T = true → balanced T → OneRef L T →
+    delimOk (spliceAll L tr T) = true ∧ balanced (spliceAll L tr T) ∧
+    (spliceAll L tr T = T ∨ spliceAll L tr T = [] ∨ firstNonWs (spliceAll L tr T) ≠ none)
+  | [], T, _, _, _, hd, hb, _ => ⟨hd, hb, Or.inl rfl⟩
+  | r :: L, T, hnd, hn, hv, hd, hb, ho => by
+    rcases ho with habs | ⟨r0, hr0, pre, post, hs, hone, hwh, hoth⟩
+    · rw [spliceAll_absent tr (r :: L) T habs]; exact ⟨hd, hb, Or.inl rfl⟩
+    · have hnd' := List.nodup_cons.mp hnd
+      by_cases e : r = r0
+      · subst e
+        obtain ⟨h1, h2, h3, h4⟩ := step_good T r ((tr.lookup r).getD []) pre post (hn r (by simp)) hs hone
+          hd hb hwh (hv r (by simp))
+        have hrest : ∀ r' ∈ L, splitFirst (mkRef r') (replaceRef T r ((tr.lookup r).getD [])) = none := by
+          intro r' hr'
+          have hne : r' ≠ r := fun e => hnd'.1 (e ▸ hr')
+          exact h4 r' (hn r' (by simp [hr'])) (hoth r' (by simp [hr']) hne)
+        rw [spliceAll_cons, spliceAll_absent tr L _ hrest]
+        exact ⟨h1, h2, Or.inr h3⟩
+      · have hr0' : r0 ∈ L := by
+          rcases List.mem_cons.mp hr0 with e' | e'
+          · exact absurd e'.symm e
+          · exact e'
+        rw [spliceAll_cons, HedVerif.C06.splice_absent T r _ (hoth r (by simp) e)]
+        exact spliceAll_good tr L T hnd'.2 (fun r' hr' => hn r' (by simp [hr']))
+          (fun r' hr' => hv r' (by simp [hr'])) hd hb
+          (Or.inr ⟨r0, hr0', pre, post, hs, hone, hwh, fun r' hr' hne => hoth r' (by simp [hr']) hne⟩)
+
+theorem depth_sep (d : Nat) : depth d SEP = some d := by
+  apply depth_noparen; decide
+
+theorem join_depth : ∀ (l : List Str), (∀ x ∈ l, depth 0 x = some 0) → ∀ d, depth d (SEP.intercalate l) = some d
+  | [], _, d => by simp [List.intercalate, depth]
+  | [x], hx, d => by
+    have := depth_shift x 0 0 d (hx x (by simp))
+    simpa [List.intercalate] using this
+  | x :: y :: ys, hx, d => by
+    have hi : SEP.intercalate (x :: y :: ys) = x ++ (SEP ++ SEP.intercalate (y :: ys)) := by
+      simp [List.intercalate]
+    have h1 := depth_shift x 0 0 d (hx x (by simp))
+    simp only [Nat.zero_add] at h1
+    rw [hi, depth_append, h1, Option.bind_some, depth_append, depth_sep, Option.bind_some]
+    exact join_depth (y :: ys) (fun z hz => hx z (by simp [hz])) d
+
+/-- a host text: empty, `n/a`, or an item whose live references are as in `OneRef` -/
+def HostOK (L : List Str) (T : Str) : Prop := T = [] ∨ T = NA ∨ (GoodItem T ∧ OneRef L T)
+
+theorem host_item (tr : List (Str × Str)) (L : List Str) (T : Str) (hnd : L.Nodup)
+    (hn : ∀ r ∈ L, ∀ c ∈ r, isRefChar c = true) (hv : ∀ r ∈ L, ValOK ((tr.lookup r).getD []))
+    (hT : HostOK L T) : keep (spliceAll L tr T) = true → GoodItem (spliceAll L tr T) := by
+  intro hk
+  rcases hT with e | e | ⟨hg, ho⟩
+  · subst e
+    rw [spliceAll_absent tr L [] (fun r _ => rfl)] at hk
+    exact absurd hk (by decide)
+  · subst e
+    have : ∀ r ∈ L, splitFirst (mkRef r) NA = none := by
+      intro r _
+      exact splitFirst_noBrace (r ++ ['}']) NA (by decide)
+    rw [spliceAll_absent tr L NA this] at hk
+    exact absurd hk (by decide)
+  · obtain ⟨h1, h2, h3⟩ := spliceAll_good tr L T hnd hn hv hg.1 hg.2.1 ho
+    rcases h3 with e | e | e
+    · rw [e]; exact hg
+    · rw [e] at hk; exact absurd hk (by decide)
+    · exact ⟨h1, h2, e⟩
+
+end HedVerif.Assemble
+
+namespace HedVerif.C06
+open HedVerif.Assemble
+
+/-- **The assembled row is delimiter-well-formed and balanced** (`_partial`: at most one live reference
+per host text).  `tr` is the transformed row (`assemble(skip_curly_braces=True)`).  If
+* the reference names are over `[A-Za-z0-9_-]` and listed once,
+* every referenced column's text is empty, `n/a` (cell n/a, empty, unknown key) or an accepted, balanced,
+  non-blank text without braces,
+* every other column's text is empty, `n/a`, or an accepted, balanced, non-blank text in which at most
+  one live reference occurs, once and as a whole tag,
+
+then `combine_dataframe`'s `", "`-join of the spliced texts passes the delimiter checker and has
+balanced parentheses — whatever subset of the referenced texts is absent. -/
+theorem assembled_wellformed_partial (refs : List Str) (tr : List (Str × Str))
+    (hnd : (liveRefs refs tr).Nodup)
+    (hn : ∀ r ∈ liveRefs refs tr, ∀ c ∈ r, isRefChar c = true)
+    (hv : ∀ r ∈ liveRefs refs tr, ValOK ((tr.lookup r).getD []))
+    (hh : ∀ p ∈ tr, p.1 ∉ liveRefs refs tr → HostOK (liveRefs refs tr) p.2) :
+    delimOk (joinRow ((assembled refs tr).map (·.2))) = true ∧
+    balanced (joinRow ((assembled refs tr).map (·.2))) := by
+  have hitems : ∀ x ∈ (assembled refs tr).map (·.2), keep x = true → GoodItem x := by
+    intro x hx
+    simp only [assembled, List.map_map, List.mem_map, List.mem_filter, Function.comp_def] at hx
+    obtain ⟨p, ⟨hp, hnp⟩, rfl⟩ := hx
+    exact host_item tr _ p.2 hnd hn hv (hh p hp (by simpa using hnp))
+  constructor
+  · exact join_wellformed _ (fun x hx hk => good_itemOk x (hitems x hx hk))
+  · unfold joinRow balanced
+    apply join_depth
+    intro x hx
+    have := List.mem_filter.mp hx
+    exact (hitems x this.1 this.2).2.1
+
+/-- the same for `Assemble.row` (one entry of `series_a`) -/
+theorem row_wellformed_partial (refs : List Str) (sc : Sidecar) (header r : List Str)
+    (hnd : (liveRefs refs (transformed (activeCols sc header) header r)).Nodup)
+    (hn : ∀ x ∈ liveRefs refs (transformed (activeCols sc header) header r), ∀ c ∈ x, isRefChar c = true)
+    (hv : ∀ x ∈ liveRefs refs (transformed (activeCols sc header) header r),
+      ValOK (((transformed (activeCols sc header) header r).lookup x).getD []))
+    (hh : ∀ p ∈ transformed (activeCols sc header) header r,
+      p.1 ∉ liveRefs refs (transformed (activeCols sc header) header r) →
+      HostOK (liveRefs refs (transformed (activeCols sc header) header r)) p.2) :
+    delimOk (row refs sc header r) = true ∧ balanced (row refs sc header r) :=
+  assembled_wellformed_partial refs _ hnd hn hv hh
+
+/-- non-vacuity: `{col}, Square, Label/#` with `col` absent, next to a HED cell -/
+example :
+    let tr : List (Str × Str) := [("HED".toList, "(Pink, Dot)".toList), ("col".toList, []),
+      ("v".toList, "{col}, Square, Label/3".toList)]
+    (liveRefs ["col".toList] tr).Nodup ∧ ValOK [] ∧
+    joinRow ((assembled ["col".toList] tr).map (·.2)) = "(Pink, Dot), Square, Label/3".toList := by
+  refine ⟨by decide +kernel, Or.inl rfl, by decide +kernel⟩
+
+end HedVerif.C06
+
+/-! ### two different references in one text: bounded, kernel-checked -/
+
+namespace HedVerif.Assemble
+
+def toks2 : List Str := [['R'], [' '], [','], ['('], [')'], ['{', 'a', '}'], ['{', 'b', '}']]
+
+/-- all concatenations of exactly `n` tokens of `toks2` -/
+def tokStrings : Nat → List Str
+  | 0 => [[]]
+  | n + 1 => (tokStrings n).flatMap fun s => toks2.map fun t => t ++ s
+
+def onceWhole (name s : Str) : Bool :=
+  match splitFirst (mkRef name) s with
+  | none => false
+  | some (pre, post) => (splitFirst (mkRef name) post).isNone && decide (wholeTag pre post)
+
+/-- the accepted, balanced `n`-token texts in which `{a}` and `{b}` each occur once as a whole tag -/
+def family (n : Nat) : List Str :=
+  (tokStrings n).filter fun s => onceWhole ['a'] s && onceWhole ['b'] s && delimOk s && decide (balanced s)
+
+def vals2 : List Str := [[], NA, ['X'], "(X, Y)".toList]
+
+def twoOK (s va vb : Str) : Bool :=
+  let r1 := replaceRef (replaceRef s ['a'] va) ['b'] vb
+  let r2 := replaceRef (replaceRef s ['b'] vb) ['a'] va
+  r1 == r2 && delimOk r1 && decide (balanced r1)
+
+end HedVerif.Assemble
+
+namespace HedVerif.C06
+open HedVerif.Assemble
+
+/-- **Two different references in one text** (bounded): for every accepted, balanced text of at most 5
+tokens over {R, blank, `,`, `(`, `)`, `{a}`, `{b}`} in which both references occur once as whole tags,
+and all 16 combinations of values in {empty, `n/a`, `X`, `(X, Y)`}: processing `{a}` then `{b}` gives
+*the same string* as `{b}` then `{a}`, and it is accepted and balanced.  (Checked by kernel evaluation;
+the harness checks the same on the implementation for 6 and 7 tokens.) -/
+theorem two_refs_bounded : ∀ n ∈ [2, 3, 4, 5], ∀ s ∈ family n, ∀ va ∈ vals2, ∀ vb ∈ vals2,
+    twoOK s va vb = true := by
+  decide +kernel
+
+example : "({b},{a})".toList ∈ family 5 ∧ "{a},{b},R".toList ∈ family 5 ∧ (family 5).length = 32 := by
+  decide +kernel
+
+/-- Exact order-independence fails when a spliced value carries blanks at its ends: the removal of the
+neighbouring reference absorbs them or not.  The results differ in blanks only (`" X "` / `"X "`). -/
+theorem ref_order_blank_counterexample :
+    replaceRef (replaceRef "{a},{b}".toList ['a'] NA) ['b'] " X ".toList = " X ".toList ∧
+    replaceRef (replaceRef "{a},{b}".toList ['b'] " X ".toList) ['a'] NA = "X ".toList := by
+  decide +kernel
 
 end HedVerif.C06
